@@ -79,15 +79,41 @@ def make_dist(kind, x):
     raise ValueError(kind)
 
 
+SNAPSHOTS = []       # (caller's mutable object, copy taken when the problem was built)
+
+
+def num_of(case):
+    t = case.get("num_type")
+    if t == "int":
+        return int
+    if t == "float32":
+        import numpy as np
+        return np.float32
+    return float
+
+
+def mutated():
+    """did any search change an object that belongs to the caller (action lists, distribution objects)?"""
+    bad = []
+    for obj, snap in SNAPSHOTS:
+        for k, v in obj.items():
+            now = list(v) if isinstance(v, list) else (type(v).__name__, list(v.items()))
+            if now != snap[k]:
+                bad.append(repr(k)[:40])
+    return bad[:5]
+
+
 def build_problem(case):
     from msdm.core.mdp.deterministic_shortest_path import DeterministicShortestPathProblem
     from msdm.core.mdp.quickmdp import QuickMDP, QuickTabularMDP
     L, idx, A, aidx = label_maps(case)
-    num = int if case.get("num_type") == "int" else float
+    num = num_of(case)
     succ = {L[s]: {A[int(a)]: (L[int(t)], num(c)) for a, t, c in row} for s, row in enumerate(case["succ"])}
     cont = case.get("actions_container", "tuple")
-    mk = {"tuple": tuple, "list": list, "dict": dict.fromkeys, "iter": iter}[cont]
+    # "shared_list": the SAME list object is handed out on every actions(s) call (the caller's own list)
+    mk = {"tuple": tuple, "list": list, "dict": dict.fromkeys, "iter": iter, "shared_list": lambda l: l}[cont]
     acts = {L[s]: [A[int(a)] for a, _, _ in row] for s, row in enumerate(case["succ"])}
+    SNAPSHOTS.append((acts, {k: list(v) for k, v in acts.items()}))
     goal = {L[s]: bool(x) for s, x in enumerate(case["goal"])}
     start = L[int(case["start"])]
 
@@ -108,6 +134,7 @@ def build_problem(case):
     if case.get("shared_dists"):          # one distribution object per (s, a), handed out on every call
         table = {(s, a): make_dist(tk, ns) for s, row in succ.items() for a, (ns, _) in row.items()}
         nsd = lambda s, a: table[(s, a)]
+        SNAPSHOTS.append((table, {k: (type(v).__name__, list(v.items())) for k, v in table.items()}))
     else:
         nsd = lambda s, a: make_dist(tk, succ[s][a][0])
     cls = QuickTabularMDP if case.get("tabular") else QuickMDP
@@ -140,27 +167,43 @@ def describe(res, with_value, case):
     return out
 
 
-def run_alg(planner, get_problem, with_value, case):
+def plan_raw(planner, get_problem, case):
+    """plan (twice with the same planner / problem objects if `replan`), keep the raw Result and the logs of the last call"""
     import msdm.algorithms.search as S
     _, _, _, aidx = label_maps(case)
     saved = S.random, S.heapq
     shim, hshim = RandomShim(), HeapShim()
+    raw = {}
     try:
         prob = get_problem()
-        for _ in range(2 if case.get("replan") else 1):       # same planner object, same problem object, again
+        for _ in range(2 if case.get("replan") else 1):
             shim, hshim = RandomShim(), HeapShim()
             S.random, S.heapq = shim, hshim
-            out = describe(planner.plan_on(prob), with_value, case)
+            raw["res"] = planner.plan_on(prob)
     except BaseException as e:
         if isinstance(e, (KeyboardInterrupt, SystemExit)):
             raise
-        out = {"error": type(e).__name__ + ": " + str(e)[:300]}
+        raw["error"] = type(e).__name__ + ": " + str(e)[:300]
     finally:
         S.random, S.heapq = saved
-    out["shuffles"] = [[aidx[a] for a in l] for l in shim.log["shuffles"]]
-    out["randoms"] = shim.log["randoms"]
-    out["repushes"] = sum(k - 1 for k in hshim.pushed.values())
-    out["stale_pops"] = sum(k - 1 for k in hshim.popped.values())
+    raw["logs"] = {"shuffles": [[aidx[a] for a in l] for l in shim.log["shuffles"]], "randoms": shim.log["randoms"],
+                   "repushes": sum(k - 1 for k in hshim.pushed.values()),
+                   "stale_pops": sum(k - 1 for k in hshim.popped.values())}
+    return raw
+
+
+def finish(raw, with_value, case):
+    """read the Result (path, policy along it, visited, value): may be called long after the planning call"""
+    if "error" in raw:
+        out = {"error": raw["error"]}
+    else:
+        try:
+            out = describe(raw["res"], with_value, case)
+        except BaseException as e:
+            if isinstance(e, (KeyboardInterrupt, SystemExit)):
+                raise
+            out = {"error": type(e).__name__ + ": " + str(e)[:300]}
+    out.update(raw["logs"])
     return out
 
 
@@ -191,13 +234,18 @@ def nested_heuristic(case):
 def make_planners(case):
     from msdm.algorithms.search import AStarSearch, BreadthFirstSearch
     _, idx, _, _ = label_maps(case)
-    num = int if case.get("num_type") == "int" else float
+    num = float if case.get("num_type") == "float32" else num_of(case)      # float32 is for the rewards only
+    p_, q_ = case.get("h_scale", [1, 1])
     if case.get("scenario") == "nested_h":
         hfun, seen = nested_heuristic(case)
     elif case["heuristic"] == "zero":
         hfun, seen = (lambda s: -num(0)), None          # label-independent: usable on a second problem
     else:
-        hv = [float("inf") if x == "inf" else num(x) for x in case["h"]]     # heuristic COST per state
+        if [p_, q_] == [1, 1]:
+            hv = [float("inf") if x == "inf" else num(x) for x in case["h"]]     # heuristic COST per state
+        else:                      # "scaled exact": k * h with the float k = p/q, as a user would write it
+            k = p_ / q_
+            hv = [float("inf") if x == "inf" else k * x for x in case["h"]]
         hfun, seen = (lambda s: -hv[idx[s]]), None
     kw = {} if case.get("assert_monotone", True) else {"assert_monotone_heuristic": False}
     a = AStarSearch(heuristic_value=hfun, seed=case["seed"], randomize_action_order=bool(case["shuffle"]),
@@ -206,29 +254,67 @@ def make_planners(case):
     return a, b, seen
 
 
-def search_both(case, get_problem, planners=None):
+def plan_both(case, get_problem, planners=None):
     pa, pb, seen = planners or make_planners(case)
-    a = run_alg(pa, get_problem, True, case)
-    if seen is not None:
-        a["h_seen"] = {str(int(s)): fj(v) for s, v in seen.items()}
-    b = run_alg(pb, get_problem, False, case)
-    return {"astar": a, "bfs": b}
+    return {"astar": plan_raw(pa, get_problem, case), "bfs": plan_raw(pb, get_problem, case), "seen": seen}
+
+
+def finish_both(raws, case):
+    a = finish(raws["astar"], True, case)
+    if raws["seen"] is not None:
+        a["h_seen"] = {str(int(s)): fj(v) for s, v in raws["seen"].items()}
+    return {"astar": a, "bfs": finish(raws["bfs"], False, case)}
 
 
 def one(case, pl):
+    del SNAPSHOTS[:]
     if case.get("scenario") == "two_wrappers":
-        # two wrappers of two different MDPs are alive at once; the OLDER one is planned on first, then the newer
+        # two wrappers of two different MDPs are alive at once; the OLDER one is planned on first, then the newer;
+        # the results of the first are read (again, or for the first time if `late_policy`) AFTER the second was planned
         from msdm.core.mdp.deterministic_shortest_path import DeterministicShortestPathProblem as DSP
         other = case["other"]
         w1 = DSP.from_mdp(build_problem(case))
         w2 = DSP.from_mdp(build_problem(other))
         planners = make_planners(case) if case.get("shared_planner") else None     # one planner object, two problems
-        res = search_both(case, lambda: w1, planners)
-        res["other"] = search_both(other, lambda: w2, planners)
-        return res
-    prob = build_problem(case)               # one problem object for both searches
-    return search_both(case, lambda: prob)
+        raw1 = plan_both(case, lambda: w1, planners)
+        early = None if case.get("late_policy") else finish_both(raw1, case)
+        res_other = finish_both(plan_both(other, lambda: w2, planners), other)
+        res = finish_both(raw1, case)
+        if early is not None:
+            res["requery_same"] = (early == res)
+        res["other"] = res_other
+    else:
+        prob = build_problem(case)               # one problem object for both searches
+        res = finish_both(plan_both(case, lambda: prob), case)
+    res["mutated"] = mutated()
+    return res
+
+
+def main():
+    """like build.run_cases, plus: the first few problems of this process are built and solved a second time at the
+    end (same process, all the other constructions in between) and must give the same answers"""
+    import traceback
+    pl = read_payload()
+
+    def safe(c):
+        try:
+            return one(c, pl)
+        except BaseException as e:
+            if isinstance(e, (KeyboardInterrupt, SystemExit)):
+                raise
+            return {"error": type(e).__name__ + ": " + str(e)[:500], "trace": traceback.format_exc()[-1500:]}
+    out = [safe(c) for c in pl["cases"]]
+    k = 0
+    for i, c in enumerate(pl["cases"]):
+        if k >= 3:
+            break
+        if c.get("long") or "error" in out[i]:
+            continue
+        k += 1
+        again = safe(c)
+        out[i]["rerun_same"] = (json.dumps(again, sort_keys=True) == json.dumps({x: y for x, y in out[i].items() if x != "rerun_same"}, sort_keys=True))
+    write_result({"results": out})
 
 
 if __name__ == "__main__":
-    run_cases(one)
+    main()
